@@ -63,6 +63,16 @@ UNITS = {
         'title': 'toml_datetime Datetime::from_str == date-time grammar (O-dt) on EVERY string (unbounded)',
         'witness': ['witness-k3'], 'replay': 'replay-k3',
     },
+    'V6': {
+        'engine': 'verus', 'complete': True,
+        'title': 'toml_datetime Display for Date/Time/Offset/Datetime: printed text is in the date-time grammar with the same value (unbounded)',
+        'witness': ['witness-k3'], 'replay': 'replay-k3',
+    },
+    'V7': {
+        'engine': 'verus', 'complete': True,
+        'title': 'document grammar time_secfrac closure: any digit string -> first nine digits right-padded (truncation), unbounded',
+        'witness': ['witness-k3'], 'replay': 'replay-k3',
+    },
     # ---------------------------------------------------------------- Kani, complete per fixed input width
     'K2': {
         'engine': 'kani', 'crate': 'toml_edit',
@@ -120,12 +130,12 @@ UNITS = {
 # property -> tier -> unit list
 PLAN = {
     'C10': {'quick': ['V1', 'K1'], 'thorough': ['V1', 'K1']},
-    'C04': {'quick': ['V1', 'V3', 'V4', 'V5', 'K1', 'K12'], 'thorough': ['V1', 'V3', 'V4', 'V5', 'K1', 'K12', 'K8t', 'K3t']},
+    'C04': {'quick': ['V1', 'V3', 'V4', 'V5', 'V6', 'V7', 'K1', 'K12'], 'thorough': ['V1', 'V3', 'V4', 'V5', 'V6', 'V7', 'K1', 'K12', 'K8t', 'K3t']},
     'C11': {'quick': ['K7', 'K6e', 'K6t'], 'thorough': ['K7', 'K6e', 'K6t']},
     'C01': {'quick': ['K1', 'K7', 'V4', 'K2'], 'thorough': ['K1', 'K7', 'V4', 'K2', 'K2y', 'K5']},
-    'C02': {'quick': ['K2', 'V5'], 'thorough': ['K2', 'K2y', 'V5', 'K5']},
+    'C02': {'quick': ['K2', 'V5', 'V7'], 'thorough': ['K2', 'K2y', 'V5', 'V7', 'K5']},
     'C05': {'quick': ['V3', 'K12'], 'thorough': ['V3', 'K12']},
-    'C12': {'quick': ['V4', 'V5', 'K2', 'K3q'], 'thorough': ['V4', 'V5', 'K2', 'K2y', 'K3q', 'K3t', 'K3a']},
+    'C12': {'quick': ['V4', 'V5', 'V6', 'V7', 'K2', 'K3q'], 'thorough': ['V4', 'V5', 'V6', 'V7', 'K2', 'K2y', 'K3q', 'K3t', 'K3a']},
     'C14': {'quick': ['K11'], 'thorough': ['K11']},
     'C15': {'quick': ['K8'], 'thorough': ['K8', 'K8t']},
 }
